@@ -1768,6 +1768,9 @@ struct RunOut {
 }
 
 fn run_once(plan: &VPlan, art: &Art, energy: u64) -> RunOut {
+    // chain-level runs are bounded by the engine's own energy accounting: no step limit of an
+    // earlier machine-level run on this thread may linger
+    concordium_wasm::machine::verif_hooks::reset(0);
     let mut chain = Chain {
         plan,
         art: art.clone(),
@@ -2251,4 +2254,109 @@ pub fn shrink(plan: &VPlan) -> Vec<VPlan> {
         out.push(p);
     }
     out
+}
+
+// ---------------------------------------------------------------------------
+// Artifacts written by the pinned version (see golden.rs)
+// ---------------------------------------------------------------------------
+
+fn compile_plan(plan: &VPlan) -> Option<Artifact<ProcessedImports, CompiledFunction>> {
+    let bytes = emit_module(plan);
+    utils::instantiate_with_metering::<ProcessedImports>(
+        ValidationConfig::V1,
+        CostConfigurationV1,
+        &ConcordiumAllowedImports {
+            support_upgrade: true,
+            enable_debug:    false,
+        },
+        &bytes,
+    )
+    .ok()
+    .map(|i| i.artifact)
+}
+
+fn state_key(r: &RunOut) -> Option<String> { r.state.as_ref().map(|(all, h)| format!("{}:{}", all.len(), hex::encode(h))) }
+
+pub fn golden_make(plan: &VPlan) -> Option<crate::golden::VCase> {
+    let art = compile_plan(plan)?;
+    simcore::alloc::set_dirty_limit(2 * 65536);
+    let mut stored = Vec::new();
+    art.output(&mut stored).ok()?;
+    let r = run_once(plan, &Arc::new(art), plan.energy);
+    if r.outcome == ROutcome::OutOfEnergy {
+        return None;
+    }
+    Some(crate::golden::VCase {
+        plan: plan.clone(),
+        stored,
+        outcome: format!("{:?}", r.outcome),
+        remaining: r.remaining,
+        state: state_key(&r),
+    })
+}
+
+pub fn golden_check(case: &crate::golden::VCase, rec: &mut Recorder) -> Option<Violation> {
+    let gv = |sig: &str, d: String| Some(Violation::new("old-artifact", sig, d, 0));
+    simcore::alloc::set_dirty_limit(2 * 65536);
+    let borrowed = match utils::parse_artifact::<ProcessedImports>(&case.stored) {
+        Ok(b) => b,
+        Err(e) => {
+            let m = format!("{:#}", e);
+            if m.contains("Unsupported artifact version") {
+                rec.probe("old_artifact_version_retired");
+                return None;
+            }
+            return gv("old-artifact/parse-failed", format!("a contract artifact stored by the pinned version can no longer be loaded: {}", m));
+        }
+    };
+    let mut again = Vec::new();
+    let _ = borrowed.output(&mut again);
+    if again != case.stored {
+        return gv(
+            "old-artifact/reserialise-differs",
+            format!("a contract artifact stored by the pinned version ({} bytes) is written out differently after loading ({} bytes)", case.stored.len(), again.len()),
+        );
+    }
+    let owned: Artifact<ProcessedImports, CompiledFunction> = borrowed.into();
+    let r = run_once(&case.plan, &Arc::new(owned), case.plan.energy);
+    rec.tick(case.plan.energy - r.remaining);
+    rec.probe("ran_old_artifact");
+    if r.interrupts > 0 {
+        rec.fault("interrupt_resume");
+        rec.nontrivial = true;
+    }
+    let o = format!("{:?}", r.outcome);
+    if o != case.outcome || r.remaining != case.remaining || state_key(&r) != case.state {
+        return gv(
+            "old-artifact/run-differs",
+            format!(
+                "a contract artifact stored by the pinned version now behaves differently: outcome {} / energy left {} / state {:?}, recorded {} / {} / {:?}",
+                truncate(&o),
+                r.remaining,
+                state_key(&r),
+                truncate(&case.outcome),
+                case.remaining,
+                case.state
+            ),
+        );
+    }
+    if let Some(fresh) = compile_plan(&case.plan) {
+        let r = run_once(&case.plan, &Arc::new(fresh), case.plan.energy);
+        let o = format!("{:?}", r.outcome);
+        if o != case.outcome || r.remaining != case.remaining || state_key(&r) != case.state {
+            return gv(
+                "old-artifact/fresh-compile-differs",
+                format!("the contract now compiles to an artifact that behaves differently from the one the pinned version stored: {} / {} vs recorded {} / {}", truncate(&o), r.remaining, truncate(&case.outcome), case.remaining),
+            );
+        }
+    }
+    None
+}
+
+fn truncate(s: &str) -> String {
+    if s.len() > 120 {
+        format!("{}…", &s[..120])
+    } else {
+        s.to_string()
+    }
 }
